@@ -7,6 +7,7 @@ import (
 	"fmt"
 	"hash/fnv"
 	"io"
+	"net"
 	"sort"
 	"strings"
 	"sync"
@@ -516,12 +517,25 @@ func c10Client(k *core.Case) {
 	r := k.R
 	env := newConnEnv(nil)
 	defer env.Cluster.Close()
-	trp := &kafka.Transport{Dial: env.Net.Dialer("cl"), ClientID: "verif-c10", MetadataTTL: time.Duration(core.Pick(r, 1, 5, 1000)) * time.Millisecond, IdleTimeout: time.Duration(core.Pick(r, 2, 20, 1000)) * time.Millisecond, DialTimeout: time.Second}
+	dial := env.Net.Dialer("cl")
+	useResolver := r.Bool()
+	trp := &kafka.Transport{Dial: dial, ClientID: "verif-c10", MetadataTTL: time.Duration(core.Pick(r, 1, 5, 1000)) * time.Millisecond, IdleTimeout: time.Duration(core.Pick(r, 2, 20, 1000)) * time.Millisecond, DialTimeout: time.Second}
+	if useResolver {
+		// the Resolver path looks idle connections up by resolved address (connGroup.grabConnTo)
+		trp.Resolver = c10Resolver{}
+		trp.Dial = func(ctx context.Context, network, addr string) (net.Conn, error) {
+			if strings.HasPrefix(addr, "10.0.0.") {
+				host, port, _ := net.SplitHostPort(addr)
+				addr = "b" + strings.TrimPrefix(host, "10.0.0.") + ":" + port
+			}
+			return dial(ctx, network, addr)
+		}
+	}
 	defer trp.CloseIdleConnections()
 	client := &kafka.Client{Addr: kafka.TCP("b1:9092"), Transport: trp, Timeout: 2 * time.Second}
 	ng := r.Range(2, 8)
 	nops := r.Range(3, 10)
-	k.Describe(map[string]any{"list": "client", "goroutines": ng, "ops_each": nops, "metadata_ttl": trp.MetadataTTL.String(), "idle_timeout": trp.IdleTimeout.String()})
+	k.Describe(map[string]any{"list": "client", "goroutines": ng, "ops_each": nops, "metadata_ttl": trp.MetadataTTL.String(), "idle_timeout": trp.IdleTimeout.String(), "resolver": useResolver})
 	tr := newC10Tracker()
 	ops := transportOps()
 	rs := make([]*core.Rand, ng)
@@ -589,6 +603,15 @@ func c10Client(k *core.Case) {
 	}
 	wg.Wait()
 	tr.report(c, "Client")
+}
+
+// c10Resolver resolves broker bN to 10.0.0.N.
+type c10Resolver struct{}
+
+func (c10Resolver) LookupBrokerIPAddr(ctx context.Context, b kafka.Broker) ([]net.IPAddr, error) {
+	n := 1
+	fmt.Sscanf(b.Host, "b%d", &n)
+	return []net.IPAddr{{IP: net.IPv4(10, 0, 0, byte(n))}}, nil
 }
 
 // ---- balancers ----
